@@ -17,11 +17,11 @@ META = {
                  'model of graphson.py + differential execution against the real serializers/readers through json.dumps/loads',
     'level_text': 'C40_roundtrip_23 / C40_roundtrip_1 (deserialize (serialize v) = the equal value, GraphSON 1/2/3, every supported value '
                   'tree of any depth), C40_duration_roundtrip (every timedelta, negative and sub-second included), C40_base64_roundtrip '
-                  '(every byte string), C40_dispatch; pre-repair duration/dispatch code refuted by computed witnesses; C40_full_statement (sets of '
+                  '(every byte string), C40_geometry_roundtrip (Point/LineString/Polygon with any number of interior rings), C40_dispatch; pre-repair duration/dispatch code refuted by computed witnesses; C40_full_statement (sets of '
                   'blobs) refuted (open finding C40-3), C40_roundtrip_23 is the partial theorem excluding exactly unhashable members/keys.',
-    'level_note': 'Partial: str(Decimal)/Decimal(), str(UUID)/UUID(), isoformat/strftime/strptime, WKT and repr(float) through JSON are '
+    'level_note': 'Partial: str(Decimal)/Decimal(), str(UUID)/UUID(), isoformat/strftime/strptime, geomet wkt.loads and repr(float) through JSON are '
                   'Section variables with ASSUMED round-trip laws (exercised, not proved). Hand-written model tied by correspondence only. '
-                  'Not covered: aware datetimes/times, IP address objects (come back as str), UDTs/namedtuples (need cluster metadata), '
+                  'Aware datetimes are covered as instants (they come back as the naive UTC reading). Not covered: aware times, IP address objects (come back as str), UDTs/namedtuples (need cluster metadata), '
                   'Vertex/Edge/Path result types, NaN. Open: blobs inside g:Set / as g:Map keys (bytearray unhashable).',
     'design_ref': 'DESIGN.md section 4, C40',
 }
@@ -77,6 +77,10 @@ def gen_scalar(rng, ver, hashable=False):
         return ['time', rng.choice([0, 86399999999, 1, 1000000, rng.randrange(0, 86400 * US)])]
     if k == 'datetime':
         w = rng.randrange(0, 3652059 * 86400 * US)
+        if rng.random() < 0.35:
+            # timezone-aware: fixed offsets (minutes) and a harness DST zone; kept a few days away from year 1 / 9999
+            w = rng.randrange(400 * 86400 * US, 3651000 * 86400 * US)
+            return ['adatetime', rng.choice([w, w - w % US]), rng.choice([0, 60, 120, -300, 330, 345, -720, 840, 'dst', 'west'])]
         return ['datetime', rng.choice([w, w - w % US, 0, 719162 * 86400 * US, w - w % 1000])]
     if k == 'timedelta':
         return gen_timedelta(rng)
@@ -84,13 +88,18 @@ def gen_scalar(rng, ver, hashable=False):
         return ['uuid', rng.choice([0, 2 ** 128 - 1, rng.getrandbits(128)])]
     if k == 'geom':
         pt = lambda: [float(rng.randrange(-100, 100)), rng.randrange(-1000, 1000) / 8.0]
-        g = rng.choice(['point', 'linestring', 'polygon'])
+        g = rng.choice(['point', 'linestring', 'polygon', 'polygon'])
         if g == 'point':
             return ['point'] + pt()
         if g == 'linestring':
-            return ['linestring', [pt() for _ in range(rng.randint(2, 4))]]
-        a = pt()
-        return ['polygon', [a, pt(), pt(), a]]
+            return ['linestring', [pt() for _ in range(rng.choice([0, 2, 3, 4]))]]
+
+        def ring():
+            a = pt()
+            return [a, pt(), pt(), a]
+        if rng.random() < 0.1:
+            return ['polygon', [], []]                                   # POLYGON EMPTY
+        return ['polygon', ring(), [ring() for _ in range(rng.choice([0, 1, 1, 2, 3]))]]   # 0, exactly 1, or more holes
     if k == 'duration':
         return ['duration', rng.randrange(-100, 100), rng.randrange(-1000, 1000), rng.choice([0, 1, -1, rng.randrange(-10 ** 15, 10 ** 15)])]
     raise ValueError(k)
@@ -146,6 +155,10 @@ def classify(vs, rt):
             return 'DurationTypeIO.%s.%s' % (td_class(lf[1]), how)
         if lf[0] == 'subdatetime':
             return 'get_serializer.datetime-subclass.%s' % how
+        if lf[0] == 'adatetime':
+            return 'InstantTypeIO.aware-datetime.%s' % how
+        if lf[0] == 'polygon':
+            return 'PolygonTypeIO.%d-interior-rings.%s' % (len(lf[2]) if len(lf) > 2 else 0, how)
     if rt['back_exc'] == 'TypeError' and vs[0] == 'set' and any(x[0] in ('bytes', 'bytearray', 'memoryview') for x in leaves(vs)):
         return 'SetTypeIO.blob-member.unhashable'
     if rt['back_exc'] == 'TypeError' and vs[0] == 'dict' and any(x[0] in ('bytes', 'bytearray', 'memoryview') for kv in vs[1] for x in leaves(kv[0])):
@@ -166,6 +179,22 @@ def same(a, b):
     return a == b
 
 
+def expect(v):
+    """the value an equal round trip must give: an aware datetime denotes an instant, read back as its naive UTC reading"""
+    import datetime as dtm
+    if isinstance(v, dtm.datetime) and v.tzinfo is not None:
+        return H.utc_reading(v)
+    if isinstance(v, list):
+        return [expect(x) for x in v]
+    if isinstance(v, tuple):
+        return tuple(expect(x) for x in v)
+    if isinstance(v, (set, frozenset)):
+        return set(expect(x) for x in v)
+    if isinstance(v, dict):
+        return dict((expect(k), expect(x)) for k, x in v.items())
+    return v
+
+
 def load_corpus():
     d = os.path.join(core.VERIF, 'corpus', 'C40')
     out = []
@@ -181,7 +210,8 @@ def coq_case(ver, v, rt):
     try:
         gv = H.gal_g(v)
         is_td = type(v).__name__ == 'timedelta'
-        ej = None if rt['ser_exc'] else H.gal_j(rt['ser'], duration=(ver == 1 and is_td))
+        is_geo = type(v).__name__ in ('Point', 'LineString', 'Polygon')
+        ej = None if rt['ser_exc'] else H.gal_j(rt['ser'], duration=(ver == 1 and is_td), wkt=(ver == 1 and is_geo))
         eb = None if (rt['ser_exc'] or rt['back_exc']) else H.gal_g(rt['back'])
     except H.Unprintable:
         return None
@@ -232,9 +262,9 @@ def run(ctx):
     def one(ver, vs, tag):
         v = H.build(vs)
         rt = H.roundtrip(ver, v)
-        okv = rt['ser_exc'] is None and rt['back_exc'] is None and same(v, rt['back'])
+        okv = rt['ser_exc'] is None and rt['back_exc'] is None and same(expect(v), rt['back'])
         ctx.case([ver, vs], nontrivial=vs[0] in ('list', 'set', 'tuple', 'dict', 'timedelta', 'bytes', 'bytearray', 'memoryview', 'date',
-                                                 'time', 'datetime', 'subdatetime', 'duration'),
+                                                 'time', 'datetime', 'subdatetime', 'adatetime', 'duration', 'polygon', 'linestring'),
                  sample={'version': ver, 'value': vs, 'graphson': json.dumps(rt['ser'])[:160], 'back': repr(rt['back'])[:120]})
         ctx.count('version', ver)
         ctx.count('kind', vs[0])
@@ -297,7 +327,7 @@ def replay(ctx, rp):
         return 1
     v = H.build(case['val'])
     rt = H.roundtrip(case['version'], v)
-    okv = rt['ser_exc'] is None and rt['back_exc'] is None and same(v, rt['back'])
+    okv = rt['ser_exc'] is None and rt['back_exc'] is None and same(expect(v), rt['back'])
     print('replay GraphSON%d value=%r -> %s -> %s' % (case['version'], v,
           json.dumps(rt['ser']) if rt['ser_exc'] is None else 'raised ' + rt['ser_exc'],
           repr(rt['back']) if rt['back_exc'] is None else 'raised ' + str(rt['back_exc'])))
